@@ -1,3 +1,4 @@
-/- C13 — property theorems only (helper lemmas live in `Rooc/Proofs`). -/
+/- C13 — property theorems (work in progress). -/
+import Rooc.Proofs.Field
 namespace Rooc.Props.C13
 end Rooc.Props.C13
